@@ -151,11 +151,11 @@ pub fn pick_knobs(rng: &mut Rng, stress: bool) -> Knobs {
     k
 }
 
-/// Number of content changes in one `didChange`: mostly what `usual` offers, one time in 25 a
+/// Number of content changes in one `didChange`: mostly what `usual` offers, one time in 33 a
 /// big batch (indenting a block, many cursors, replace-all) around the sizes a threshold in the
 /// code is likely to sit at.
 pub fn batch_size(rng: &mut Rng, usual: &[usize]) -> usize {
-    if rng.chance(40) {
+    if rng.chance(30) {
         *rng.pick(&[15usize, 16, 17, 31, 32, 33, 34, 48, 63, 64, 65, 100, 129])
     } else {
         *rng.pick(usual)
